@@ -21,24 +21,24 @@ def expected : List (String × List (String × String)) := [
   ("operator.py:MultiOperator.append", [("not isinstance(op, Operator)", "TypeError")]),
   ("statematrix.py:_format_states", [("check and states.size != 3", "ValueError"), ("check and states.shape[1] != 3", "ValueError"), ("check and states.shape[0] % 2 != 1", "ValueError"), ("check and states.shape[-1] != 3", "ValueError"), ("check and states.shape[-2] % 2 != 1", "ValueError"), ("not xp.allclose(states[..., 1], states[..., ::-1, 0].conj())", "ValueError"), ("not xp.allclose(states[..., 2], states[..., ::-1, 2].conj())", "ValueError")]),
   ("shift.py:S.__init__", [("np.allclose(k, 0)", "TypeError"), ("not k.shape[-1] in [1, 2, 3, 4]", "ValueError")]),
-  ("shift.py:S._apply", [("sm.coords is not None", "RuntimeError"), ("kgrid is None", "AttributeError"), ("else", "ValueError")]),
+  ("shift.py:S._apply", [("sm.coords is not None", "RuntimeError"), ("kgrid is None or not np.all(np.asarray(kgrid, dtype=float) > 0)", "AttributeError"), ("else", "ValueError")]),
   ("shift.py:G.__init__", [("np.any(tau < 0)", "ValueError"), ("not common.isscalar(gradient) and common.get_shape(gradient)[-1] > 3", "ValueError")]),
   ("shift.py:C.__init__", [("np.any(tau < 0)", "ValueError")]),
   ("diffusion.py:get_shape", [("len(D_shape) == 1", "ValueError"), ("len(set(D_shape[-2:])) == 2", "ValueError"), ("len(D_shape) and len(k_shape) and (D_shape[-1] != k_shape[-1])", "ValueError")]),
-  ("exchange.py:X.__init__", [("np.any(np.asarray(tau) < 0)", "ValueError"), ("khi.ndim < 2", "ValueError"), ("khi.shape[:-1][axis] != khi.shape[-1]", "ValueError"), ("not all([np.allclose(khi[..., i].sum(axis=axis), 0, atol=1e-08 * max(1.0, np.abs(khi).max())) for i in range(khi.shape[-1])])", "ValueError")]),
+  ("exchange.py:X.__init__", [("np.any(np.asarray(tau) < 0)", "ValueError"), ("any((np.any(np.asarray(T) < 0) for T in (T1, T2) if T is not None))", "ValueError"), ("khi.ndim < 2", "ValueError"), ("khi.shape[:-1][axis] != khi.shape[-1]", "ValueError"), ("not all([np.allclose(khi[..., i].sum(axis=axis), 0, atol=1e-08 * max(1.0, np.abs(khi).max())) for i in range(khi.shape[-1])])", "ValueError")]),
   ("exchange.py:X._apply", [("not xp.allclose(flux, 0, atol=1e-08 * scale)", "RuntimeError"), ("sm.shape[ax] != ncomp", "RuntimeError")]),
   ("exchange.py:exchange_matrix", [("np.any(k < 0)", "ValueError")]),
   ("opscalar.py:scalar_format", [("arr.ndim < 2 or arr.shape[-1] != 3", "ValueError"), ("check and (not xp.allclose(arr, arr[..., (1, 0, 2)].conj()))", "ValueError")]),
   ("opmatrix.py:matrix_format", [("mat.ndim < 3 or mat.shape[-2:] != (3, 3)", "ValueError"), ("not xp.allclose(mat, mat[..., (1, 0, 2), :][..., (1, 0, 2)].conj())", "ValueError")]),
   ("functions.py:simulate", [("not any((isinstance(op, operators.Probe) for op in sequence))", "ValueError")]),
   ("functions.py:flatten_sequence", [("else", "ValueError")]),
-  ("rfpulse.py:make_pulse_sequence", [("values.ndim > 1", "ValueError"), ("np.max(np.abs(values)) > 1", "ValueError"), ("else", "ValueError")]),
-  ("rfpulse.py:estimate_rf", [("np.max(np.abs(values)) > 1", "ValueError"), ("not optimize", "RuntimeError")]),
+  ("rfpulse.py:make_pulse_sequence", [("values.ndim > 1", "ValueError"), ("np.max(np.abs(values)) > 1 + 1e-12", "ValueError"), ("else", "ValueError")]),
+  ("rfpulse.py:estimate_rf", [("np.max(np.abs(values)) > 1 + 1e-12", "ValueError"), ("not optimize", "RuntimeError")]),
   ("sequence.py:Sequence.check", [("invalid", "ValueError")]),
   ("sequence.py:Sequence.build", [("invalid", "ValueError"), ("invalid", "ValueError")]),
   ("sequence.py:Variable.__call__", [("not self.name in kwargs", "ValueError")]),
   ("common.py:broadcast_shapes", [("len(dims) > 1", "ValueError")]),
-  ("evolution.py:E.__init__", [("np.any(np.asarray(tau) < 0)", "ValueError")]),
+  ("evolution.py:E.__init__", [("np.any(np.asarray(tau) < 0)", "ValueError"), ("np.any(np.asarray(T1) < 0) or np.any(np.asarray(T2) < 0)", "ValueError")]),
   ("evolution.py:P.__init__", [("np.any(np.asarray(tau) < 0)", "ValueError")]),
   ("diffusion.py:D.__init__", [("np.any(np.asarray(tau) < 0)", "ValueError")]),
   ("operator.py:Operator.copy", [("np.any(np.asarray(duration) < 0)", "ValueError")]),
